@@ -190,3 +190,494 @@ Lemma sn_export_legacy_wrong_branch_refuted : exists nt win e,
 Proof.
   exists [NChoice 0 twelve], (fun _ => 1%nat), [NFixed (Mod 10)]. split; [reflexivity|]. vm_compute. discriminate.
 Qed.
+(* ============================================================ C06 *)
+Lemma qsum_app : forall a b, qsum (a ++ b) == qsum a + qsum b.
+Proof. induction a; intro b; cbn; [ring|]. rewrite IHa. ring. Qed.
+
+Lemma qsum_le : forall {A} (f g : A -> Q) l, (forall x, In x l -> f x <= g x) -> qsum (map f l) <= qsum (map g l).
+Proof.
+  induction l; intro H; cbn; [lra|].
+  assert (f a <= g a) by (apply H; left; reflexivity).
+  assert (qsum (map f l) <= qsum (map g l)) by (apply IHl; intros; apply H; right; assumption). lra.
+Qed.
+
+Lemma qsum_eq : forall {A} (f g : A -> Q) l, (forall x, In x l -> f x == g x) -> qsum (map f l) == qsum (map g l).
+Proof.
+  induction l; intro H; cbn; [reflexivity|].
+  rewrite (H a (or_introl eq_refl)), IHl by (intros; apply H; right; assumption). reflexivity.
+Qed.
+
+(* ---- dot product facts *)
+Lemma dot_zeros : forall n cs, dot (zeros n) cs == 0.
+Proof. induction n; intros [|c cs]; cbn; try reflexivity. rewrite IHn. ring. Qed.
+
+Lemma dot_one_hot : forall cs k, (k < length cs)%nat -> dot (one_hot k (length cs)) cs == nth k cs 0.
+Proof.
+  induction cs as [|c cs IH]; intros [|k] H; cbn in *; try lia.
+  - rewrite dot_zeros. ring.
+  - rewrite IH by lia. ring.
+Qed.
+
+Definition nonneg (th : list Q) : Prop := Forall (fun t => 0 <= t) th.
+Definition prob (th : list Q) : Prop := nonneg th /\ qsum th == 1.
+
+Lemma dot_lower : forall th cs m, nonneg th -> length th = length cs -> (forall j, (j < length cs)%nat -> m <= nth j cs 0) ->
+  m * qsum th <= dot th cs.
+Proof.
+  induction th as [|t th IH]; intros [|c cs] m Hn Hl Hm; cbn in *; try discriminate; [lra|].
+  inversion Hn; subst.
+  assert (m <= c) by (apply (Hm 0%nat); lia).
+  assert (m * qsum th <= dot th cs) by (apply IH; [assumption|lia|intros j Hj; apply (Hm (S j)); lia]).
+  nra.
+Qed.
+
+Lemma dot_upper : forall th cs m, nonneg th -> length th = length cs -> (forall j, (j < length cs)%nat -> nth j cs 0 <= m) ->
+  dot th cs <= m * qsum th.
+Proof.
+  induction th as [|t th IH]; intros [|c cs] m Hn Hl Hm; cbn in *; try discriminate; [lra|].
+  inversion Hn; subst.
+  assert (c <= m) by (apply (Hm 0%nat); lia).
+  assert (dot th cs <= m * qsum th) by (apply IH; [assumption|lia|intros j Hj; apply (Hm (S j)); lia]).
+  nra.
+Qed.
+
+Lemma zeros_nonneg : forall n, nonneg (zeros n).
+Proof. induction n; cbn; constructor; [lra|exact IHn]. Qed.
+Lemma qsum_zeros : forall n, qsum (zeros n) == 0.
+Proof. induction n; cbn; [reflexivity|]. rewrite IHn. ring. Qed.
+Lemma length_zeros : forall n, length (zeros n) = n.
+Proof. intro. apply repeat_length. Qed.
+Lemma prob_one_hot : forall n k, (k < n)%nat -> prob (one_hot k n) /\ length (one_hot k n) = n.
+Proof.
+  induction n as [|n IH]; intros k Hk; [lia|]. destruct k as [|k]; cbn [one_hot].
+  - split; [split|].
+    + constructor; [lra|apply zeros_nonneg].
+    + cbn [qsum]. rewrite qsum_zeros. ring.
+    + cbn [length]. rewrite length_zeros. reflexivity.
+  - destruct (IH k) as [[Hn Hs] Hl]; [lia|]. split; [split|].
+    + constructor; [lra|exact Hn].
+    + cbn [qsum]. rewrite Hs. ring.
+    + cbn [length]. rewrite Hl. reflexivity.
+Qed.
+
+(* ---- argbest *)
+Lemma argbest_lt : forall le xs, xs <> [] -> (argbest le xs < length xs)%nat.
+Proof.
+  induction xs as [|x r IH]; intro H; [congruence|]. cbn [argbest length].
+  destruct r as [|y r']; [lia|].
+  destruct (le x (nth (argbest le (y :: r')) (y :: r') 0)); [lia|].
+  assert (argbest le (y :: r') < length (y :: r'))%nat by (apply IH; discriminate). lia.
+Qed.
+
+Lemma argmin_le : forall xs j, (j < length xs)%nat -> nth (argmin_q xs) xs 0 <= nth j xs 0.
+Proof.
+  unfold argmin_q. induction xs as [|x r IH]; intros j Hj; [cbn in Hj; lia|].
+  cbn [argbest]. destruct r as [|y r']; [destruct j as [|j]; [cbn; lra|cbn in Hj; lia]|].
+  set (k := argbest Qle_bool (y :: r')) in *.
+  destruct (Qle_bool x (nth k (y :: r') 0)) eqn:E.
+  - apply Qle_bool_iff in E. destruct j; [cbn; lra|].
+    change (x <= nth j (y :: r') 0). eapply Qle_trans; [exact E|]. apply IH. cbn in *; lia.
+  - assert (nth k (y :: r') 0 < x).
+    { apply Qnot_le_lt. intro H. apply Qle_bool_iff in H. congruence. }
+    change (nth k (y :: r') 0 <= nth j (x :: y :: r') 0).
+    destruct j as [|j]; [change (nth k (y :: r') 0 <= x); apply Qlt_le_weak; exact H|].
+    change (nth k (y :: r') 0 <= nth j (y :: r') 0). apply IH. cbn in Hj |- *; lia.
+Qed.
+
+Lemma argmax_ge : forall xs j, (j < length xs)%nat -> nth j xs 0 <= nth (argmax_q xs) xs 0.
+Proof.
+  unfold argmax_q. induction xs as [|x r IH]; intros j Hj; [cbn in Hj; lia|].
+  cbn [argbest]. destruct r as [|y r']; [destruct j as [|j]; [cbn; lra|cbn in Hj; lia]|].
+  set (k := argbest (fun a b => Qle_bool b a) (y :: r')) in *.
+  destruct (Qle_bool (nth k (y :: r') 0) x) eqn:E.
+  - apply Qle_bool_iff in E. destruct j; [cbn; lra|].
+    change (nth j (y :: r') 0 <= x). eapply Qle_trans; [|exact E]. apply IH. cbn in *; lia.
+  - assert (x < nth k (y :: r') 0).
+    { apply Qnot_le_lt. intro H. apply Qle_bool_iff in H. congruence. }
+    change (nth j (x :: y :: r') 0 <= nth k (y :: r') 0).
+    destruct j as [|j]; [change (x <= nth k (y :: r') 0); apply Qlt_le_weak; exact H|].
+    change (nth j (y :: r') 0 <= nth k (y :: r') 0). apply IH. cbn in Hj |- *; lia.
+Qed.
+
+(* ---- entries belong to the network *)
+Lemma entries_from_in : forall nt seen b brs, In (ECombiner b brs) (entries_from seen nt) -> In (NChoice b brs) nt.
+Proof.
+  induction nt as [|n nt IH]; intros seen b brs H; [destruct H|].
+  destruct n as [[i|c]|b' brs']; cbn in H.
+  - destruct H as [H|H]; [discriminate|]. right. eapply IH, H.
+  - right. eapply IH, H.
+  - destruct H as [H|H]; [injection H as <- <-; left; reflexivity|]. right. eapply IH, H.
+Qed.
+
+Lemma euniq_acc_in : forall l seen e, In e (euniq_acc seen l) -> In e l.
+Proof.
+  induction l as [|a l IH]; intros seen e H; [destruct H|]. cbn in H.
+  destruct (kmem (entry_key a) seen); [right; eapply IH, H|].
+  destruct H as [->|H]; [left; reflexivity|right; eapply IH, H].
+Qed.
+
+Lemma target_in : forall shared nt b brs, In (ECombiner b brs) (target_list shared nt) -> In (NChoice b brs) nt.
+Proof.
+  intros [|] nt b brs H; unfold target_list in H.
+  - apply (entries_from_in nt []). eapply euniq_acc_in, H.
+  - apply (entries_from_in nt []), H.
+Qed.
+
+Definition blocks_consistent (nt : net) : Prop :=
+  forall b brs brs', In (NChoice b brs) nt -> In (NChoice b brs') nt -> brs = brs'.
+
+Lemma find_block_in : forall nt b brs, blocks_consistent nt -> In (NChoice b brs) nt -> find_block b nt = brs.
+Proof.
+  induction nt as [|n nt IH]; intros b brs Hc Hin; [destruct Hin|].
+  destruct n as [l|b' brs']; cbn.
+  - destruct Hin as [H|Hin]; [discriminate|]. apply IH; [|exact Hin].
+    intros x y z H1 H2. apply (Hc x); right; assumption.
+  - destruct (Z.eqb_spec b b') as [->|Hne].
+    + apply (Hc b'); [left; reflexivity|exact Hin].
+    + destruct Hin as [H|Hin]; [injection H as -> ->; congruence|]. apply IH; [|exact Hin].
+      intros x y z H1 H2. apply (Hc x); right; assumption.
+Qed.
+
+Section C06.
+  Variable cost : Z -> nat -> Q.
+
+  Definition fixed_cost (shared : bool) (nt : net) : Q :=
+    qsum (map (fun e => match e with ELayer i s => cost i s | ECombiner _ _ => 0 end) (target_list shared nt)).
+
+  (* full_cost adds exactly the cost of the layers outside the choice blocks *)
+  Theorem sn_cost_full_adds_fixed : forall shared th nt,
+    sn_cost cost shared true th nt == sn_cost cost shared false th nt + fixed_cost shared nt.
+  Proof.
+    intros. unfold sn_cost, fixed_cost. induction (target_list shared nt) as [|e l IH]; cbn; [ring|].
+    rewrite IH. destruct e; cbn; ring.
+  Qed.
+
+  (* without full_cost the cost is the sum over the combiners of the coefficient-weighted branch costs *)
+  Theorem sn_cost_is_weighted_mix : forall shared th nt,
+    sn_cost cost shared false th nt ==
+    qsum (map (fun e => match e with ECombiner b brs => dot (th b) (map (branch_cost cost) brs) | ELayer _ _ => 0 end) (target_list shared nt)).
+  Proof. intros. unfold sn_cost. apply qsum_eq. intros [b brs|i s] _; reflexivity. Qed.
+
+  (* ---- affine in the coefficient vector of each block *)
+  Definition upd (th : Z -> list Q) (b : Z) (v : list Q) : Z -> list Q := fun b' => if Z.eqb b' b then v else th b'.
+  Fixpoint lin (lam : Q) (u v : list Q) : list Q :=
+    match u, v with a :: u', c :: v' => (lam * a + (1 - lam) * c) :: lin lam u' v' | _, _ => [] end.
+
+  Lemma dot_lin : forall lam u v cs, length u = length v -> dot (lin lam u v) cs == lam * dot u cs + (1 - lam) * dot v cs.
+  Proof.
+    induction u as [|a u IH]; intros [|c v] cs H; cbn in *; try discriminate; [destruct cs; ring|].
+    destruct cs as [|k cs]; [ring|]. rewrite IH by lia. ring.
+  Qed.
+
+  Theorem sn_cost_affine : forall shared full th nt b lam u v, length u = length v ->
+    sn_cost cost shared full (upd th b (lin lam u v)) nt ==
+    lam * sn_cost cost shared full (upd th b u) nt + (1 - lam) * sn_cost cost shared full (upd th b v) nt.
+  Proof.
+    intros. unfold sn_cost. induction (target_list shared nt) as [|e l IH]; cbn; [ring|].
+    rewrite IH. destruct e as [b' brs|i s]; cbn; [|ring].
+    unfold block_cost, upd. destruct (Z.eqb b' b); [rewrite dot_lin by assumption|]; ring.
+  Qed.
+
+  (* ---- convexity: between the cheapest and the most expensive selection *)
+  Lemma block_hard : forall brs k, (k < length brs)%nat ->
+    block_cost cost (one_hot k (length brs)) brs == nth k (map (branch_cost cost) brs) 0.
+  Proof. intros. unfold block_cost. rewrite <- (map_length (branch_cost cost) brs). apply dot_one_hot. rewrite map_length. assumption. Qed.
+
+  Lemma entry_hard : forall full nt win b brs, blocks_consistent nt -> In (NChoice b brs) nt -> (win b < length brs)%nat ->
+    entry_cost cost full (hard_sel nt win) (ECombiner b brs) == nth (win b) (map (branch_cost cost) brs) 0.
+  Proof. intros. cbn. unfold hard_sel. rewrite (find_block_in nt b brs) by assumption. apply block_hard. assumption. Qed.
+
+  Definition coeffs_ok (th : Z -> list Q) (nt : net) : Prop :=
+    forall b brs, In (NChoice b brs) nt -> prob (th b) /\ length (th b) = length brs.
+
+  Theorem sn_cost_convex : forall shared full th nt, blocks_consistent nt -> coeffs_ok th nt ->
+    sn_cost cost shared full (hard_sel nt (cheapest cost nt)) nt <= sn_cost cost shared full th nt /\
+    sn_cost cost shared full th nt <= sn_cost cost shared full (hard_sel nt (dearest cost nt)) nt.
+  Proof.
+    intros shared full th nt Hc Hth. unfold sn_cost. split; apply qsum_le; intros [b brs|i s] Hin; cbn [entry_cost]; try lra.
+    - pose proof (target_in _ _ _ _ Hin) as Hn. destruct (Hth b brs Hn) as [[Hnn Hs] Hl].
+      assert (Hne : brs <> []) by (intro; subst; destruct (th b); cbn in *; [lra|discriminate]).
+      assert (Hk : (cheapest cost nt b < length brs)%nat).
+      { unfold cheapest. rewrite (find_block_in nt b brs Hc Hn). unfold argmin_q.
+        rewrite <- (map_length (branch_cost cost) brs). apply argbest_lt. destruct brs; [congruence|discriminate]. }
+      change (entry_cost cost full (hard_sel nt (cheapest cost nt)) (ECombiner b brs) <= block_cost cost (th b) brs).
+      rewrite (entry_hard full nt _ b brs Hc Hn Hk). unfold block_cost.
+      set (cs := map (branch_cost cost) brs). set (m := nth (cheapest cost nt b) cs 0).
+      assert (m * qsum (th b) <= dot (th b) cs).
+      { apply dot_lower; [exact Hnn|unfold cs; rewrite map_length; exact Hl|].
+        intros j Hj. unfold m, cheapest. rewrite (find_block_in nt b brs Hc Hn). apply argmin_le. exact Hj. }
+      rewrite Hs in H. lra.
+    - pose proof (target_in _ _ _ _ Hin) as Hn. destruct (Hth b brs Hn) as [[Hnn Hs] Hl].
+      assert (Hne : brs <> []) by (intro; subst; destruct (th b); cbn in *; [lra|discriminate]).
+      assert (Hk : (dearest cost nt b < length brs)%nat).
+      { unfold dearest. rewrite (find_block_in nt b brs Hc Hn). unfold argmax_q.
+        rewrite <- (map_length (branch_cost cost) brs). apply argbest_lt. destruct brs; [congruence|discriminate]. }
+      change (block_cost cost (th b) brs <= entry_cost cost full (hard_sel nt (dearest cost nt)) (ECombiner b brs)).
+      rewrite (entry_hard full nt _ b brs Hc Hn Hk). unfold block_cost.
+      set (cs := map (branch_cost cost) brs). set (m := nth (dearest cost nt b) cs 0).
+      assert (dot (th b) cs <= m * qsum (th b)).
+      { apply dot_upper; [exact Hnn|unfold cs; rewrite map_length; exact Hl|].
+        intros j Hj. unfold m, dearest. rewrite (find_block_in nt b brs Hc Hn). apply argmax_ge. exact Hj. }
+      rewrite Hs in H. lra.
+  Qed.
+
+  (* the two bounds are the minimum and the maximum over all selections *)
+  Theorem sn_cost_selection_bounds : forall shared full nt win, blocks_consistent nt -> winners_ok win nt ->
+    sn_cost cost shared full (hard_sel nt (cheapest cost nt)) nt <= sn_cost cost shared full (hard_sel nt win) nt /\
+    sn_cost cost shared full (hard_sel nt win) nt <= sn_cost cost shared full (hard_sel nt (dearest cost nt)) nt.
+  Proof.
+    intros shared full nt win Hc Hw. apply sn_cost_convex; [exact Hc|].
+    intros b brs Hn. unfold hard_sel. rewrite (find_block_in nt b brs Hc Hn). specialize (Hw b brs Hn).
+    destruct (prob_one_hot (length brs) (win b) Hw) as [Hp Hl]. split; assumption.
+  Qed.
+End C06.
+
+(* ============================================================ C06: hard selection = cost of the exported network *)
+Lemma zmem_iff : forall x l, zmem x l = true <-> In x l.
+Proof.
+  induction l as [|y l IH]; cbn; [split; [discriminate|tauto]|].
+  rewrite orb_true_iff, IH. destruct (Z.eqb_spec x y); split; intros [H|H]; auto; try discriminate; left; congruence.
+Qed.
+Lemma zmem_false_iff : forall x l, zmem x l = false <-> ~ In x l.
+Proof. intros. rewrite <- zmem_iff. destruct (zmem x l); split; congruence. Qed.
+Lemma zmem_app : forall x a b, zmem x (a ++ b) = zmem x a || zmem x b.
+Proof. induction a; intro b; cbn; [reflexivity|]. rewrite IHa. apply orb_assoc. Qed.
+
+Lemma zuniq_acc_ext : forall l s1 s2, (forall x, zmem x s1 = zmem x s2) -> zuniq_acc s1 l = zuniq_acc s2 l.
+Proof.
+  induction l as [|x l IH]; intros s1 s2 H; cbn; [reflexivity|]. rewrite (H x).
+  destruct (zmem x s2); [apply IH, H|]. f_equal. apply IH. intro y. cbn. rewrite (H y). reflexivity.
+Qed.
+
+Lemma zuniq_acc_app : forall a b s s', (forall y, zmem y s' = zmem y s || zmem y a) ->
+  zuniq_acc s (a ++ b) = zuniq_acc s a ++ zuniq_acc s' b.
+Proof.
+  induction a as [|x a IH]; intros b s s' H; cbn.
+  - apply zuniq_acc_ext. intro y. rewrite H. cbn. rewrite orb_false_r. reflexivity.
+  - destruct (zmem x s) eqn:E.
+    + apply IH. intro y. rewrite H. cbn. destruct (Z.eqb_spec y x) as [->|]; [rewrite E; reflexivity|reflexivity].
+    + cbn. f_equal. apply IH. intro y. rewrite H. cbn. destruct (Z.eqb y x), (zmem y s); reflexivity.
+Qed.
+
+Lemma zuniq_acc_all_seen : forall a s, (forall i, In i a -> zmem i s = true) -> zuniq_acc s a = [].
+Proof. induction a as [|x a IH]; intros s H; cbn; [reflexivity|]. rewrite (H x (or_introl eq_refl)). apply IH. intros; apply H; right; assumption. Qed.
+
+Lemma zuniq_acc_none_seen : forall a t s, (forall i, In i a -> zmem i s = false) -> zuniq_acc (t ++ s) a = zuniq_acc t a.
+Proof.
+  induction a as [|x a IH]; intros t s H; cbn; [reflexivity|]. rewrite zmem_app, (H x (or_introl eq_refl)), orb_false_r.
+  destruct (zmem x t); [apply IH; intros; apply H; right; assumption|]. f_equal.
+  apply (IH (x :: t) s). intros; apply H; right; assumption.
+Qed.
+
+Lemma zuniq_nodup : forall a s, NoDup a -> (forall i, In i a -> zmem i s = false) -> zuniq_acc s a = a.
+Proof.
+  induction a as [|x a IH]; intros s Hn H; cbn; [reflexivity|]. rewrite (H x (or_introl eq_refl)). f_equal.
+  inversion Hn; subst. apply IH; [assumption|]. intros i Hi. cbn. rewrite (H i (or_intror Hi)), orb_false_r.
+  destruct (Z.eqb_spec i x); [subst; contradiction|reflexivity].
+Qed.
+
+Lemma key_eqb_iff : forall a b, key_eqb a b = true <-> a = b.
+Proof.
+  intros [x p] [y q]. unfold key_eqb. cbn. rewrite andb_true_iff, Z.eqb_eq, eqb_true_iff. split; [intros [-> ->]; reflexivity|intro H; injection H; auto].
+Qed.
+
+Lemma qsum_flat_map : forall {A} (f : Z -> Q) (X : A -> list Z) l, qsum (map f (flat_map X l)) == qsum (map (fun e => qsum (map f (X e))) l).
+Proof. induction l; cbn; [reflexivity|]. rewrite map_app, qsum_app, IHl. reflexivity. Qed.
+
+Lemma branch_mods_app : forall a b, branch_mods (a ++ b) = branch_mods a ++ branch_mods b.
+Proof. intros. unfold branch_mods. apply flat_map_app. Qed.
+
+Section Export_cost.
+  Variable cost : Z -> nat -> Q.
+  Variable inb : Z -> bool.
+  Variable full : bool.
+  Variable win : Z -> nat.
+  Hypothesis site_indep : forall i s, cost i s == cost i 0.
+
+  Let f (i : Z) : Q := if inb i || full then cost i 0 else 0.
+  Let X (e : entry) : list Z := match e with ECombiner b brs => branch_mods (nth (win b) brs []) | ELayer i _ => [i] end.
+  Let G (e : entry) : Q := qsum (map f (zuniq (X e))).
+
+  Lemma calls_all : forall ls seen, qsum (map (call_cost cost inb full) (calls_from seen ls)) == qsum (map f (branch_mods ls)).
+  Proof.
+    induction ls as [|[i|c] ls IH]; intro seen; cbn; [reflexivity| |apply IH].
+    rewrite IH. unfold call_cost, f. cbn. destruct (inb i || full); [rewrite site_indep|]; reflexivity.
+  Qed.
+
+  Lemma calls_uniq : forall ls seen seen', qsum (map (call_cost cost inb full) (cuniq_acc seen (calls_from seen' ls))) == qsum (map f (zuniq_acc seen (branch_mods ls))).
+  Proof.
+    induction ls as [|[i|c] ls IH]; intros seen seen'; cbn; [reflexivity| |apply IH].
+    destruct (zmem i seen); [apply IH|]. cbn. rewrite IH. unfold call_cost, f. cbn.
+    destruct (inb i || full); [rewrite site_indep|]; reflexivity.
+  Qed.
+
+  Lemma mods_entries : forall nt seen, branch_mods (flat_map (expand win) nt) = flat_map X (entries_from seen nt).
+  Proof.
+    induction nt as [|n nt IH]; intro seen; [reflexivity|]. cbn [flat_map]. rewrite branch_mods_app.
+    destruct n as [[i|c]|b brs]; cbn; rewrite <- IH; reflexivity.
+  Qed.
+
+  Lemma entries_from_in_layer : forall nt seen i s, In (ELayer i s) (entries_from seen nt) -> In (NFixed (Mod i)) nt.
+  Proof.
+    induction nt as [|n nt IH]; intros seen i s H; [destruct H|].
+    destruct n as [[j|c]|b' brs']; cbn in H.
+    - destruct H as [H|H]; [injection H as -> _; left; reflexivity|right; eapply IH, H].
+    - right. eapply IH, H.
+    - destruct H as [H|H]; [discriminate|right; eapply IH, H].
+  Qed.
+
+  Variable nt : net.
+  Hypothesis Hcons : blocks_consistent nt.
+  Hypothesis Hwin : winners_ok win nt.
+  Hypothesis Hinb_block : forall b brs br i, In (NChoice b brs) nt -> In br brs -> In i (branch_mods br) -> inb i = true.
+  Hypothesis Hinb_fixed : forall i, In (NFixed (Mod i)) nt -> inb i = false.
+
+  Lemma winner_in : forall b brs, In (NChoice b brs) nt -> In (nth (win b) brs []) brs.
+  Proof. intros. apply nth_In. apply (Hwin b brs H). Qed.
+
+  Lemma entry_G : forall e, In e (entries nt) ->
+    entry_cost cost full (hard_sel nt win) e == G e.
+  Proof.
+    intros [b brs|i s] Hin.
+    - pose proof (entries_from_in nt [] b brs Hin) as Hn.
+      rewrite (entry_hard cost full nt win b brs Hcons Hn (Hwin b brs Hn)).
+      change 0 with (branch_cost cost []). rewrite map_nth. unfold G, branch_cost. cbn [X].
+      apply qsum_eq. intros i Hi. unfold f.
+      rewrite (Hinb_block b brs (nth (win b) brs []) i Hn (winner_in b brs Hn)); [reflexivity|].
+      unfold zuniq in Hi. clear - Hi. revert Hi. generalize (@nil Z).
+      induction (branch_mods (nth (win b) brs [])) as [|x l IH]; intros sn Hi; [destruct Hi|]. cbn in Hi.
+      destruct (zmem x sn); [right; eapply IH, Hi|]. destruct Hi as [->|Hi]; [left; reflexivity|right; eapply IH, Hi].
+    - pose proof (entries_from_in_layer nt [] i s Hin) as Hn. unfold G. cbn. unfold f.
+      rewrite (Hinb_fixed i Hn). cbn. destruct full; [rewrite site_indep|]; ring.
+  Qed.
+
+  (* shared metrics *)
+  Lemma uniq_sum : forall L seenK seenI,
+    (forall e e', In e L -> In e' L -> entry_key e = entry_key e' -> X e = X e') ->
+    (forall e e' i, In e L -> In e' L -> entry_key e <> entry_key e' -> In i (X e) -> ~ In i (X e')) ->
+    (forall e i, In e L -> kmem (entry_key e) seenK = true -> In i (X e) -> zmem i seenI = true) ->
+    (forall e i, In e L -> kmem (entry_key e) seenK = false -> In i (X e) -> zmem i seenI = false) ->
+    qsum (map G (euniq_acc seenK L)) == qsum (map f (zuniq_acc seenI (flat_map X L))).
+  Proof.
+    induction L as [|e r IH]; intros seenK seenI Hsame Hdis Ht Hf; [reflexivity|].
+    cbn [euniq_acc flat_map]. destruct (kmem (entry_key e) seenK) eqn:E.
+    - rewrite (zuniq_acc_app (X e) (flat_map X r) seenI seenI).
+      2:{ intro y. destruct (zmem y (X e)) eqn:Ey; [|rewrite orb_false_r; reflexivity].
+          apply zmem_iff in Ey. rewrite (Ht e y (or_introl eq_refl) E Ey). reflexivity. }
+      rewrite zuniq_acc_all_seen by (intros i Hi; apply (Ht e i (or_introl eq_refl) E Hi)).
+      cbn [app]. apply IH.
+      + intros; apply Hsame; try right; assumption.
+      + intros e1 e2 i H1 H2; apply Hdis; right; assumption.
+      + intros e1 i H1; apply Ht; right; assumption.
+      + intros e1 i H1; apply Hf; right; assumption.
+    - rewrite (zuniq_acc_app (X e) (flat_map X r) seenI (X e ++ seenI)).
+      2:{ intro y. rewrite zmem_app. apply orb_comm. }
+      replace (zuniq_acc seenI (X e)) with (zuniq (X e)).
+      2:{ symmetry. apply (zuniq_acc_none_seen (X e) [] seenI). intros i Hi. apply (Hf e i (or_introl eq_refl) E Hi). }
+      cbn [map qsum]. rewrite map_app, qsum_app. fold (G e).
+      rewrite (IH (entry_key e :: seenK) (X e ++ seenI)); [reflexivity| | | |].
+      + intros; apply Hsame; try right; assumption.
+      + intros e1 e2 i H1 H2; apply Hdis; right; assumption.
+      + intros e1 i H1 Hk Hi. rewrite zmem_app. cbn in Hk. apply orb_true_iff in Hk. destruct Hk as [Hk|Hk].
+        * apply key_eqb_iff in Hk. rewrite <- (Hsame e1 e (or_intror H1) (or_introl eq_refl) Hk).
+          apply orb_true_iff. left. apply zmem_iff. exact Hi.
+        * rewrite (Ht e1 i (or_intror H1) Hk Hi). apply orb_true_r.
+      + intros e1 i H1 Hk Hi. rewrite zmem_app. cbn in Hk. apply orb_false_iff in Hk. destruct Hk as [Hk1 Hk2].
+        rewrite (Hf e1 i (or_intror H1) Hk2 Hi), orb_false_r. apply zmem_false_iff.
+        apply (Hdis e1 e i (or_intror H1) (or_introl eq_refl)); [|exact Hi].
+        intro Heq. apply key_eqb_iff in Heq. congruence.
+  Qed.
+
+  Hypothesis Hdisjoint : forall b b' brs brs' br br' i, In (NChoice b brs) nt -> In (NChoice b' brs') nt -> b <> b' ->
+    In br brs -> In br' brs' -> In i (branch_mods br) -> ~ In i (branch_mods br').
+
+  Lemma hard_eq_export_cost_shared :
+    sn_cost cost true full (hard_sel nt win) nt == plain_cost cost true full inb (flat_map (expand win) nt).
+  Proof.
+    unfold sn_cost, plain_cost, target_list, euniq.
+    rewrite calls_uniq, (mods_entries nt []).
+    transitivity (qsum (map G (euniq_acc [] (entries nt)))).
+    { apply qsum_eq. intros e He. apply entry_G. eapply euniq_acc_in, He. }
+    apply uniq_sum.
+    - intros [b brs|i s] [b' brs'|i' s'] H1 H2 Hk; cbn in Hk; try discriminate; injection Hk as ->; [|reflexivity].
+      cbn [X]. rewrite (Hcons b' brs brs'); [reflexivity| |]; eapply entries_from_in; eassumption.
+    - intros [b brs|i s] [b' brs'|i' s'] j H1 H2 Hk Hj; cbn [X] in *.
+      + pose proof (entries_from_in nt [] _ _ H1) as N1. pose proof (entries_from_in nt [] _ _ H2) as N2.
+        apply (Hdisjoint b b' brs brs' (nth (win b) brs []) (nth (win b') brs' []) j N1 N2); [intro; subst; apply Hk; reflexivity|apply winner_in, N1|apply winner_in, N2|exact Hj].
+      + pose proof (entries_from_in nt [] _ _ H1) as N1. pose proof (entries_from_in_layer nt [] _ _ H2) as N2.
+        intros [<-|[]]. pose proof (Hinb_block b brs _ i' N1 (winner_in b brs N1) Hj) as A.
+        pose proof (Hinb_fixed i' N2) as B. congruence.
+      + pose proof (entries_from_in_layer nt [] _ _ H1) as N1. pose proof (entries_from_in nt [] _ _ H2) as N2.
+        destruct Hj as [<-|[]]. intro Hj. pose proof (Hinb_block b' brs' _ i N2 (winner_in b' brs' N2) Hj) as A.
+        pose proof (Hinb_fixed i N1) as B. congruence.
+      + destruct Hj as [<-|[]]. intros [<-|[]]. apply Hk. reflexivity.
+    - intros e i _ Hk. discriminate.
+    - reflexivity.
+  Qed.
+
+  (* per-invocation metrics *)
+  Hypothesis Hnodup : forall b brs, In (NChoice b brs) nt -> NoDup (branch_mods (nth (win b) brs [])).
+
+  Lemma hard_eq_export_cost_per_call :
+    sn_cost cost false full (hard_sel nt win) nt == plain_cost cost false full inb (flat_map (expand win) nt).
+  Proof.
+    unfold sn_cost, plain_cost, target_list. rewrite calls_all, (mods_entries nt []), qsum_flat_map.
+    apply qsum_eq. intros e He. rewrite (entry_G e He). unfold G.
+    assert (zuniq (X e) = X e); [|rewrite H; reflexivity].
+    destruct e as [b brs|i s]; [|reflexivity]. cbn [X]. apply zuniq_nodup; [|reflexivity].
+    apply Hnodup. apply (entries_from_in nt [] b brs He).
+  Qed.
+End Export_cost.
+
+(* names: a module lies inside a choice block iff `inb` says so ('sn_branches' in its qualified name) *)
+Definition names_ok (inb : Z -> bool) (nt : net) : Prop :=
+  (forall b brs br i, In (NChoice b brs) nt -> In br brs -> In i (branch_mods br) -> inb i = true) /\
+  (forall i, In (NFixed (Mod i)) nt -> inb i = false).
+(* different blocks do not share modules *)
+Definition blocks_disjoint (nt : net) : Prop :=
+  forall b b' brs brs' br br' i, In (NChoice b brs) nt -> In (NChoice b' brs') nt -> b <> b' ->
+    In br brs -> In br' brs' -> In i (branch_mods br) -> ~ In i (branch_mods br').
+(* no module is used twice inside the winning branch *)
+Definition winners_nodup (win : Z -> nat) (nt : net) : Prop :=
+  forall b brs, In (NChoice b brs) nt -> NoDup (branch_mods (nth (win b) brs [])).
+(* every module sees the same output shape at each of its call sites (always true for shape-independent metrics) *)
+Definition site_independent (cost : Z -> nat -> Q) : Prop := forall i s, cost i s == cost i 0%nat.
+
+Theorem sn_cost_hard_eq_export_cost_shared : forall cost inb full win nt e,
+  site_independent cost -> blocks_consistent nt -> names_ok inb nt -> blocks_disjoint nt ->
+  sn_export win nt = Some e ->
+  sn_cost cost true full (hard_sel nt win) nt == plain_cost cost true full inb (fixed_layers e).
+Proof.
+  intros cost inb full win nt e Hs Hc [Hb Hf] Hd He.
+  assert (Hw : winners_ok win nt) by (apply sn_export_none; congruence).
+  destruct (sn_export_tree nt win e He) as [_ [-> _]].
+  apply hard_eq_export_cost_shared; assumption.
+Qed.
+
+Theorem sn_cost_hard_eq_export_cost_per_call : forall cost inb full win nt e,
+  site_independent cost -> blocks_consistent nt -> names_ok inb nt -> winners_nodup win nt ->
+  sn_export win nt = Some e ->
+  sn_cost cost false full (hard_sel nt win) nt == plain_cost cost false full inb (fixed_layers e).
+Proof.
+  intros cost inb full win nt e Hs Hc [Hb Hf] Hd He.
+  assert (Hw : winners_ok win nt) by (apply sn_export_none; congruence).
+  destruct (sn_export_tree nt win e He) as [_ [-> _]].
+  apply hard_eq_export_cost_per_call; assumption.
+Qed.
+
+(* without call-site independence the statement fails: a block invoked at two resolutions is charged twice
+   the cost of its FIRST call site (SuperNetCombiner.get_cost uses the node of the first invocation) *)
+Lemma sn_cost_site_dependent_refuted : exists cost inb win nt e,
+  blocks_consistent nt /\ names_ok inb nt /\ winners_nodup win nt /\ sn_export win nt = Some e /\
+  ~ sn_cost cost false false (hard_sel nt win) nt == plain_cost cost false false inb (fixed_layers e).
+Proof.
+  exists (fun _ s => match s with O => 4 | _ => 1 end), (fun _ => true), (fun _ => 0%nat),
+         [NChoice 0 [[Mod 0]; [Mod 1]]; NFixed (Fn 0); NChoice 0 [[Mod 0]; [Mod 1]]],
+         [NFixed (Mod 0); NFixed (Fn 0); NFixed (Mod 0)].
+  split; [|split; [|split; [|split]]].
+  - intros b brs brs' [H|[H|[H|[]]]] [H'|[H'|[H'|[]]]]; congruence.
+  - split; [reflexivity|]. intros i [H|[H|[H|[]]]]; discriminate.
+  - intros b brs [H|[H|[H|[]]]]; try discriminate; injection H as <- <-; cbn; repeat constructor; intros [].
+  - reflexivity.
+  - vm_compute. discriminate.
+Qed.
